@@ -618,6 +618,12 @@ class SQLParser(Parser):
         op = p[1] + ' ' + p[2]
         return BinaryOperation(op=op, args=(p.expr0, p.expr1))
 
+    # IS NOT written as two tokens (the words are separated by a comment, so the lexer's IS_NOT did not match);
+    # must stay above the `NOT expr` rule: the reduce/reduce conflict after `expr IS NOT expr` goes to the earlier rule
+    @_('expr IS NOT expr %prec IS_NOT')
+    def expr(self, p):
+        return BinaryOperation(op=p[1] + ' ' + p[2], args=(p.expr0, p.expr1))
+
     @_('expr PLUS expr',
        'expr MINUS expr',
        'expr STAR expr',
